@@ -129,6 +129,8 @@ func main() {
 		os.Exit(cmdCheck(os.Args[2:]))
 	case "dump":
 		cmdDump(os.Args[2:])
+	case "mods":
+		cmdMods(os.Args[2:])
 	default:
 		fmt.Fprintln(os.Stderr, "unknown command")
 		os.Exit(2)
@@ -352,13 +354,6 @@ func cmdCheck(args []string) int {
 			reports = append(reports, r)
 		}
 	}
-	// baseline obligations that are no longer generated
-	for b := range baseline {
-		if !seen[b] {
-			fmt.Fprintf(os.Stderr, "UNDECIDED %s: baseline obligation %s is no longer generated\n", id, b)
-			nUndecided++
-		}
-	}
 	// lemma layer
 	lr := runLemmas(id, prog, specs, opts, known, baseline, seen)
 	nObl += lr.n
@@ -385,6 +380,18 @@ func cmdCheck(args []string) int {
 	nViol += sr.violations
 	reports = append(reports, sr.reports...)
 	violationLines = append(violationLines, sr.lines...)
+	for _, r := range sr.reports {
+		seen[r.Name] = true
+	}
+	// baseline obligations that are no longer generated
+	if *only == "" {
+		for _, b := range sortedKeys(baseline) {
+			if !seen[b] {
+				fmt.Fprintf(os.Stderr, "UNDECIDED %s: baseline obligation %s is no longer generated\n", id, b)
+				nUndecided++
+			}
+		}
+	}
 
 	if nObl == 0 {
 		fmt.Fprintf(os.Stderr, "BROKEN-CHECK %s: no obligations generated\n", id)
